@@ -934,6 +934,8 @@ func main() {
 	}
 	// 5. fixed-layout P2P messages
 	checkPlainMessages()
+	// 6. nested serialisation: pooled scratch buffers must not be shared between two encodings
+	checkNested(run.Thorough())
 
 	keys := make([]string, 0, len(found))
 	for key := range found {
@@ -945,7 +947,7 @@ func main() {
 	}
 	stopProfile()
 	run.Set("distinct_nontrivial", len(distinct))
-	run.Set("rule", "values are enumerated, never drawn: (1) for each typed input and output, every assignment in which at most field_deviation_bound members leave their base value, each member ranging over its full value set (byte strings nil/empty/1/75/76/127/128/255/256 bytes, lists nil/empty/[empty]/2-3 items, integers 0,1,127,128,16383,16384,2^31-1,2^31,2^63-1, three hashes, all suffixes); (2) every sequence of 0..max_inputs_outputs inputs x outputs over pools of 8 input and 5 output variants incl. nil vs empty lists, plus version x time range; (3) headers: member sweeps x every supLink set of 0..3 links with signature-slot pattern none/first/last/all; (4) blocks of 0..3 pooled transactions x 3 headers through the three serialisation flags, JSON and every P2P wrapper; (5) fixed-layout messages. distinct_nontrivial = number of distinct reference encodings of values that have at least one input or output (tx), a witness or supLink (header), a transaction (block)")
+	run.Set("rule", "values are enumerated, never drawn: (1) for each typed input and output, every assignment in which at most field_deviation_bound members leave their base value, each member ranging over its full value set (byte strings nil/empty/1/75/76/127/128/255/256 bytes, lists nil/empty/[empty]/2-3 items, integers 0,1,127,128,16383,16384,2^31-1,2^31,2^63-1, three hashes, all suffixes); (2) every sequence of 0..max_inputs_outputs inputs x outputs over pools of 8 input and 5 output variants incl. nil vs empty lists, plus version x time range; (3) headers: member sweeps x every supLink set of 0..3 links with signature-slot pattern none/first/last/all; (4) blocks of 0..3 pooled transactions x 3 headers through the three serialisation flags, JSON and every P2P wrapper; (5) fixed-layout messages; (6) nested serialisation: for every ordered pair (A,B) of a corpus of transactions / headers / blocks (nested_corpus values, with and without suffixes) and every k in 1..writes(A), A is serialised into a writer whose k-th Write call first serialises B completely (MarshalText and WriteTo) - the bytes of both must equal their undisturbed and reference encodings and decode to equal values with equal ids (nested_pairs, nested_boundaries). distinct_nontrivial = number of distinct reference encodings of values that have at least one input or output (tx), a witness or supLink (header), a transaction (block)")
 	run.Assume("well-formed means: asset version 1 and VM version 1 on spends and outputs (what the constructors NewSpendInput / NewOriginalTxOutput / ... produce; the decoder rejects other VM versions by design), SerializedSize set to the length of the encoding")
 	run.Assume("bc.ComputeAssetID (issuance asset id derivation) and the entry hashing in MapTx are trusted; ids are compared before/after, not recomputed (C03 covers what the id commits to)")
 	run.Assume("go-wire itself is a dependency; its output is compared with a byte-level reference of the go-wire binary format")
